@@ -429,6 +429,7 @@ fn socket_scenario(ty: Ty, stage: u8, spec: String, eof_after: bool) -> Verdict 
         nested_env: true,
         yields: false,
         select: true,
+        policy: 0,
     });
     let input = expand(&spec);
     let victim = e3::raw_conn("victim");
